@@ -1,12 +1,51 @@
 /-
 C15 — property theorems (only). Model: `HydroVerif/Model/C15.lean`; helper lemmas and the predicates
-`Far`, `Sep`, `OffEdges`, `shift`, `scale`: `HydroVerif/Lemmas/C15.lean`.
+`Far`, `Sep`, `OffEdges`, `shift`, `scale`, `lin`, `StrictConvexCCW`, `LeftOfAll`: `HydroVerif/Lemmas/C15*.lean`.
 
-All statements are over an arbitrary linearly ordered field `α` (ℚ, ℝ, …), every polygon (any number of
-vertices, any shape, any orientation, repeated vertices allowed) and every point subject to the stated hypotheses.
+All statements are over an arbitrary linearly ordered field `α` (ℚ, ℝ, …), every polygon (any number of vertices,
+any shape, any orientation, repeated vertices allowed) and every point subject to the stated hypotheses. Every model
+function named below is executed by `Drivers/C15.lean` (Float and exact Rat instances) and compared with the real
+code on every run: `pointsInsidePolygonCall` → `pointsInsidePolygon` → `cInside` / `crossing` / `edgeToggle`
+(requests `pipf`, `pipcall`, `pipq`), `evenOdd`, `evenOddLeft`, `evenOddLe`, `evenOddDir` (`pipq`), `cellsInside`,
+`cellsInsideTable`, `cellCentre` (`cells`, `centres`).
+
+CLAUSE → THEOREMS → WHAT REMAINS OUTSIDE
+
+1. "for any polygon - either orientation, any starting vertex, closed or open, convex or not - and any point farther
+   from the boundary than the tolerance, points_inside_polygon reports 1 exactly when the point is interior under the
+   even-odd rule, 0 otherwise"
+   → `inside_eq_evenOdd_of_far` (all polygons, all atol ≥ 0, all points with sup-norm distance > atol to every edge),
+     `crossing_eq_evenOdd_of_far` + `evenOdd_false_outside_box` (pre-test, guards, box never decide),
+     `inside_eq_evenOddLe_of_sep`, `inside_eq_evenOdd_of_sep`, `inside_eq_evenOddLe_of_atol_nonpos`,
+     `evenOddLe_eq_evenOdd` (the quantifier's "coordinates differ by much more than the tolerance": exact at EVERY point);
+     the rule itself is well defined: `straddling_edges_even`, `evenOdd_right_eq_left`, `inside_eq_evenOddLeft_of_far`,
+     `evenOdd_any_direction`, `inside_eq_evenOddDir_of_far` (the crossing parity is the same along EVERY ray direction);
+     convex case = half-plane test: `convex_evenOdd_iff`, `convex_inside_iff`, `convex_cw_inside_iff`.
+   outside: IEEE rounding (Float instance executed, bit-equal to the kernel; exact = float checked on every far point);
+     a topological definition of "interior" (Jordan curve) is not formalised — "interior under the even-odd rule" is
+     the crossing parity of a ray, proved independent of the ray.
+2. "the answer is unchanged by rotating or reversing the vertex list" (and by closing it)
+   → `evenOdd_rotate`, `evenOdd_reverse`, `evenOdd_close` (no hypothesis), `inside_rotate`, `inside_reverse`,
+     `inside_close` (code's answer, far points). outside: nothing.
+3. "… and by translating or scaling polygon and points together"
+   → `evenOdd_shift`, `evenOdd_scale`, `inside_shift`, `inside_scale`; beyond the clause: every invertible linear map
+     `evenOdd_linear_invariant`, `inside_linear_invariant`.
+   outside: `inside_scale` / `inside_linear_invariant` need the distance clause before AND after the map because the
+     code's tolerance is absolute (a fact of the code, not a gap of the proof).
+4. "cells_inside_polygon returns exactly the grid cells whose centres are inside"
+   → `cells_mem_iff` (each cell once, increasing, ⇔ centre accepted), `cells_mem_iff_evenOdd` (⇔ centre interior),
+     `cells_table` (x, y columns are the centres of the listed cells), `cellCentre_rowcol` (centre formula).
+   outside: the `cell2coord` kernel (C07; its formula is restated and compared bit for bit), pandas; that a Grid
+     object carries no hidden state between queries is checked by the history streams (model = pure function of the
+     current geometry), not by a theorem.
+5. the wrapper's own behaviour (no clause of the property speaks of rejected input; kept because it decides answers)
+   → `pointsInside_eq_map` (answers independent of each other and of the previous content of a caller's buffer),
+     `pointsInside_error_iff`, `pointsInsideCall_spec` (dtype → length → shape → empty polygon, in the code's order).
+   outside: numpy dtype conversion (`astype`), Cython buffer typing (ndim, contiguity), NaN / infinite coordinates.
 -/
 import HydroVerif.Lemmas.C15
 import HydroVerif.Lemmas.C15Convex
+import HydroVerif.Lemmas.C15Direction
 
 set_option linter.unusedSectionVars false
 
@@ -57,6 +96,18 @@ theorem inside_eq_evenOddLe_of_sep {atol : α} {poly : List (α × α)} (pt : α
     split
     · rename_i hout; exact (evenOddLe_outsideBox hout).symm
     · exact hc
+
+/-- a tolerance `atol ≤ 0` switches both guards off: the code is the closed-ray even-odd rule for every polygon
+and every point -/
+theorem inside_eq_evenOddLe_of_atol_nonpos {atol : α} (h : atol ≤ 0) (poly : List (α × α)) (pt : α × α) :
+    pointInside atol poly pt = evenOddLe poly pt := by
+  apply inside_eq_evenOddLe_of_sep
+  intro e _
+  constructor
+  · by_cases h1 : e.1.2 = e.2.2
+    · exact Or.inl h1
+    · exact Or.inr (lt_of_le_of_lt h (abs_pos.mpr (sub_ne_zero.mpr h1)))
+  · exact Or.inr (h.trans (abs_nonneg _))
 
 /-- closed and open right ray agree off the edges -/
 theorem evenOddLe_eq_evenOdd {poly : List (α × α)} {pt : α × α} (hoff : OffEdges poly pt) :
@@ -109,6 +160,37 @@ theorem evenOdd_right_eq_left {poly : List (α × α)} {pt : α × α} (hoff : O
 theorem inside_eq_evenOddLeft_of_far {atol : α} {poly : List (α × α)} {pt : α × α} (h0 : 0 ≤ atol)
     (hfar : Far atol poly pt) : pointInside atol poly pt = evenOddLeft poly pt := by
   rw [inside_eq_evenOdd_of_far h0 hfar, evenOdd_right_eq_left (far_offEdges h0 hfar)]
+
+/-! ### independence of the ray direction, invariance under invertible linear maps -/
+
+/-- the even-odd rule may be evaluated along ANY ray: for every direction `d ≠ 0`, every polygon and every point
+off its boundary the crossing parity of the ray `P + s d` (half-open vertex rule in the rotated frame) equals that
+of the horizontal ray -/
+theorem evenOdd_any_direction {d : α × α} (hd : d ≠ (0, 0)) {poly : List (α × α)} {P : α × α}
+    (hoff : Far 0 poly P) : evenOddDir d poly P = evenOdd poly P :=
+  evenOddDir_eq_evenOdd hd hoff
+
+/-- the code's answer is the crossing parity along any ray, for points farther than the tolerance from the
+boundary -/
+theorem inside_eq_evenOddDir_of_far {atol : α} {d : α × α} (h0 : 0 ≤ atol) (hd : d ≠ (0, 0))
+    {poly : List (α × α)} {P : α × α} (hfar : Far atol poly P) :
+    pointInside atol poly P = evenOddDir d poly P := by
+  rw [inside_eq_evenOdd_of_far h0 hfar, evenOddDir_eq_evenOdd hd (far_mono h0 hfar)]
+
+/-- the even-odd answer of a point off the boundary is unchanged by every invertible linear map of the plane
+(rotations, reflections, shears, anisotropic scalings) applied to polygon and point together -/
+theorem evenOdd_linear_invariant {a b c d : α} (hdet : a * d - b * c ≠ 0) {poly : List (α × α)} {pt : α × α}
+    (hoff : Far 0 poly pt) : evenOdd (poly.map (lin a b c d)) (lin a b c d pt) = evenOdd poly pt :=
+  (inv_lin hdet poly pt hoff).1
+
+/-- … and so is the code's answer when the point is farther than the tolerance from the boundary before and
+after the map -/
+theorem inside_linear_invariant {atol a b c d : α} (h0 : 0 ≤ atol) (hdet : a * d - b * c ≠ 0)
+    {poly : List (α × α)} {pt : α × α} (hfar : Far atol poly pt)
+    (hfar' : Far atol (poly.map (lin a b c d)) (lin a b c d pt)) :
+    pointInside atol (poly.map (lin a b c d)) (lin a b c d pt) = pointInside atol poly pt := by
+  rw [inside_eq_evenOdd_of_far h0 hfar', inside_eq_evenOdd_of_far h0 hfar,
+    evenOdd_linear_invariant hdet (far_mono h0 hfar)]
 
 /-! ### invariance of the even-odd rule (no hypothesis) -/
 
@@ -221,6 +303,33 @@ theorem pointsInside_error_iff (atol : α) (pts poly : List (α × α)) (insideL
       | cons v0 t => simp [pointsInsidePolygon, hn]
     · simp [pointsInsidePolygon, hn]
 
+/-- the whole call as the caller makes it, guard by guard in the code's order: a wrong dtype of the answer vector
+is reported first, then its length, then the two-column shape of points / polygon, then an empty polygon; a call
+passing all four is answered point by point by the per-point model -/
+theorem pointsInsideCall_spec (atol : α) (ptsWidth : Nat) (pts : List (α × α)) (polyWidth : Nat)
+    (poly : List (α × α)) (inside : Option (Bool × Nat)) :
+    ((∃ n, inside = some (false, n)) →
+      pointsInsidePolygonCall atol ptsWidth pts polyWidth poly inside = .error .insideDtype) ∧
+    ((∃ n, inside = some (true, n) ∧ n ≠ pts.length) →
+      pointsInsidePolygonCall atol ptsWidth pts polyWidth poly inside = .error .insideLength) ∧
+    ((inside = none ∨ inside = some (true, pts.length)) →
+      ((ptsWidth ≠ 2 ∨ polyWidth ≠ 2) →
+        pointsInsidePolygonCall atol ptsWidth pts polyWidth poly inside = .error .shapeAssert) ∧
+      (ptsWidth = 2 → polyWidth = 2 → poly = [] →
+        pointsInsidePolygonCall atol ptsWidth pts polyWidth poly inside = .error .emptyPolygon) ∧
+      (ptsWidth = 2 → polyWidth = 2 → ∀ v0 t, poly = v0 :: t →
+        pointsInsidePolygonCall atol ptsWidth pts polyWidth poly inside =
+          .ok (pts.map (pointInside atol (v0 :: t))))) :=
+  pointsInsidePolygonCall_spec atol ptsWidth pts polyWidth poly inside
+
+/-- the table returned by `cells_inside_polygon` holds, for each listed cell and in the same order, the
+coordinates of that cell's centre and its number -/
+theorem cells_table (nrows ncols : Nat) (xll yll csz atol : α) (v0 : α × α) (t : List (α × α)) :
+    ∃ l, cellsInside nrows ncols xll yll csz atol (v0 :: t) = .ok l ∧
+      cellsInsideTable nrows ncols xll yll csz atol (v0 :: t) = .ok (l.map fun c =>
+        ((cellCentre nrows ncols xll yll csz c).1, (cellCentre nrows ncols xll yll csz c).2, c)) :=
+  ⟨_, cellsInside_cons nrows ncols xll yll csz atol v0 t, cellsInsideTable_cons nrows ncols xll yll csz atol v0 t⟩
+
 /-- `cells_inside_polygon` lists exactly the cells of the grid whose centre the point test accepts,
 each once, in increasing cell number -/
 theorem cells_mem_iff (nrows ncols : Nat) (xll yll csz atol : α) (v0 : α × α) (t : List (α × α)) :
@@ -284,6 +393,16 @@ example : OffEdges [(0, 0), (4, 0), (0, 4)] ((1, 1) : ℚ × ℚ) := by
   simp only [edges, edgesFrom, List.cons_append, List.nil_append, List.mem_cons, List.not_mem_nil, or_false] at he
   rcases he with rfl | rfl | rfl <;> (intro _; unfold xint; norm_num)
 
+/-- a ray through the vertex (4,0) … -/
+example : evenOddDir ((3, -1) : ℚ × ℚ) [(0, 0), (4, 0), (0, 4)] (1, 1) = true ∧
+    evenOddDir ((-1, -1) : ℚ × ℚ) [(0, 0), (4, 0), (0, 4)] (1, 1) = true ∧
+    evenOddDir ((0, 1) : ℚ × ℚ) [(0, 0), (4, 0), (0, 4)] (5, 1) = false := by decide +kernel
+example : ((3, -1) : ℚ × ℚ) ≠ (0, 0) := by decide
+example : (2 : ℚ) * 1 - 3 * (-1) ≠ 0 := by norm_num
+example : pointsInsidePolygonCall (1 / 100 : ℚ) 2 [(1, 1), (3, 3)] 2 [(0, 0), (4, 0), (0, 4)] (some (true, 2)) =
+    .ok [true, false] := by decide +kernel
+example : pointsInsidePolygonCall (1 / 100 : ℚ) 3 [(1, 1)] 2 [] (some (false, 7)) = .error .insideDtype := by
+  decide +kernel
 example : StrictConvexCCW ([(0, 0), (4, 0), (0, 4)] : List (ℚ × ℚ)) := by
   unfold StrictConvexCCW; decide +kernel
 example : LeftOfAll [(0, 0), (4, 0), (0, 4)] ((1, 1) : ℚ × ℚ) := by
